@@ -109,8 +109,9 @@ def check(tr):
         if b["m"] == "resume_trial" and b.get("trial") in errored and b["s0"] > errored[b["trial"]]:
             out.append(V("C13", "R4.failed_trial_resumed", tr, "trial %s failed and was later resumed" % b["trial"], b["s0"]))
             break
-    if scen["kind"] in NOREPEAT_KINDS and not scen["scheduler"].get("allow_duplicates"):
-        # ("when it promises no repeats": not demanded of a searcher configured with allow_duplicates=True)
+    if scen["kind"] in NOREPEAT_KINDS:
+        # ("when it promises no repeats": a searcher configured with allow_duplicates=True still documents that the
+        # configuration of a *failed* trial is not suggested again - its exclusion list exists for that alone)
         failed_hp = {hp_part(tr, configs.get(t)): (t, s) for t, s in errored.items() if configs.get(t) is not None}
         for c in tr.sched:
             if c["m"] == "suggest" and c["exc"] is None and c["ret"] and c["ret"]["new"]:
